@@ -453,6 +453,14 @@ func (h *HarnessRun) runPath(solver *Solver, it workItem) (newWork []workItem) {
 				panic(r)
 			}
 		}()
+		if h.fn.Pkg != nil && !x.isSnapshot {
+			// as in a native run, the harness package (and so its imports) is
+			// initialised before the harness body executes
+			snap := getSnapshot(x.prog, x.cfg)
+			snap.mu.Lock()
+			snap.x.ensureInit(h.fn.Pkg)
+			snap.mu.Unlock()
+		}
 		x.callFunction(h.fn, nil, nil, nil)
 	}()
 	// collect
